@@ -10,6 +10,8 @@ pub mod c02;
 pub mod c03;
 pub mod c09;
 pub mod c10;
+pub mod c11;
+pub mod c12;
 pub mod pattern_model;
 pub mod c13;
 pub mod childproc;
@@ -38,6 +40,8 @@ pub fn dispatch(prop: &str, tier: &str, seed: u64, only: Option<(String, u64)>) 
         "C03" => c03::run(&mut rep),
         "C09" => c09::run(&mut rep),
         "C10" => c10::run(&mut rep),
+        "C11" => c11::run(&mut rep),
+        "C12" => c12::run(&mut rep),
         "C13" => c13::run(&mut rep),
         _ => {
             eprintln!("unknown property {}", prop);
@@ -47,7 +51,7 @@ pub fn dispatch(prop: &str, tier: &str, seed: u64, only: Option<(String, u64)>) 
     if replaying {
         // a replay executes one case: coverage floors do not apply
         rep.inconclusive.clear();
-        if rep.distinct.len() < 2 {
+        if rep.distinct.len() < 2 && rep.distinct_enumerated < 2 {
             rep.distinct.insert(0);
             rep.distinct.insert(1);
         }
